@@ -34,18 +34,21 @@ def vmOutcomeS : Core.VM.Outcome → String
   | .panic why s => s!"PANIC {Sexp.hexOfString why} out={Sexp.hexOfString s.st.out}"
   | .outOfFuel _ => "TIMEOUT"
 
-/-- `vmrun <calls> <stack> <mem> <modules sexp>` → outcome of the compiler model + VM model. -/
+/-- `vmrun <calls> <stack> <mem> <modules sexp>` → outcome of the compiler model + VM model;
+`(hosted (singletons (x<name> V)…) <modules sexp>)` in place of the modules: the host provides these
+singleton values. -/
 def cmdVmRun (payload : String) : String :=
   match payload.splitOn " " with
   | a :: b :: c :: rest =>
     match a.toNat?, b.toNat?, c.toNat?, Sexp.parse (" ".intercalate rest) with
     | some calls, some stack, some mem, some sx =>
-      match Decode.program sx with
+      match Decode.hostedProgram sx with
       | .error e => s!"DECODE-ERROR {Sexp.hexOfString e}"
-      | .ok prog =>
+      | .ok (prog, host) =>
         match Core.Comp.compile prog with
         | .error w => s!"UNSUPPORTED {Sexp.hexOfString w}"
-        | .ok cp => vmOutcomeS (Core.VM.runMain cp { callStack := calls, stack := stack, memory := mem } HmsGen.vmQuantum)
+        | .ok cp => vmOutcomeS (Core.VM.runMain cp
+            { callStack := calls, stack := stack, memory := mem, hostSingletons := host } HmsGen.vmQuantum)
     | _, _, _, _ => "BAD-INPUT"
   | _ => "BAD-INPUT"
 
